@@ -23,9 +23,17 @@ type scriptCreator struct {
 	mu      sync.Mutex
 	resolve map[string]string // "ip|port" -> target of the created sender, "" = unreachable
 	made    []*FakeSender
+	during  func() // run once, inside the round, when the first sender of a round is asked for
 }
 
 func (c *scriptCreator) CreateSender(ip, port string) (application.Sender, error) {
+	c.mu.Lock()
+	d := c.during
+	c.during = nil
+	c.mu.Unlock()
+	if d != nil {
+		d() // an announcement or an incentive that arrives while the round is creating its senders
+	}
 	c.mu.Lock()
 	defer c.mu.Unlock()
 	t, ok := c.resolve[ip+"|"+port]
@@ -242,7 +250,48 @@ func runNetSuite(seed uint64, n int, out *Out, stats *Stats) {
 				creator.mu.Lock()
 				creator.made = nil
 				creator.mu.Unlock()
+				// one round in three: a peer's message lands while the round is under way (after it took
+				// its view of the known targets): it belongs to the next round, like a message that
+				// arrives just after the round
+				var late func()
+				var lateOp string
+				var lateBook func()
+				if r.Chance(1, 3) {
+					if r.Chance(1, 2) {
+						ts := []string{pool[r.Intn(len(pool))], pool[r.Intn(10)]}
+						late = func() { nb.AddTargets(ts) }
+						lateOp = sx("add", plist([]string{atom(ts[0]), atom(ts[1])}))
+						lateBook = func() {
+							for _, t := range ts {
+								if _, ok := known[t]; !ok {
+									if sp, ok2 := splitTab[t]; ok2 && netId(sp[1]) == netId(hostPort) {
+										known[t] = 0
+									}
+								}
+							}
+						}
+						stats.Count("add-targets/inside a round")
+					} else {
+						t := pool[r.Intn(10)]
+						late = func() { nb.Incentive(t) }
+						lateOp = sx("inc", atom(t))
+						lateBook = func() { known[t]++ }
+						stats.Count("incentive/inside a round")
+					}
+					creator.mu.Lock()
+					creator.during = late
+					creator.mu.Unlock()
+				}
 				nb.Synchronize(0)
+				if late != nil {
+					creator.mu.Lock()
+					pending := creator.during != nil
+					creator.during = nil
+					creator.mu.Unlock()
+					if pending {
+						late() // the round asked for no sender: the message arrives right after it
+					}
+				}
 				rounds++
 				senders := nb.Senders()
 				// SendTargets runs in goroutines: wait for every selected sender to be told
@@ -287,6 +336,10 @@ func runNetSuite(seed uint64, n int, out *Out, stats *Stats) {
 				stats.Count(fmt.Sprintf("sync/known%d/max%d/selected%d", minInt(len(src), 9), max, len(senders)))
 				monitorNet(out, id, host, max, src, splitTab, creator, senders, aliasing)
 				known = map[string]int{}
+				if late != nil {
+					lateBook()
+					ops = append(ops, lateOp)
+				}
 			}
 		}
 		stats.Cases++
